@@ -150,6 +150,17 @@ func runGRPCWebServer(ctx context.Context, server *grpc.Server, listener net.Lis
 	if trace != nil {
 		grpcWebServer = tracer.TracingHandler(grpcWebServer, trace)
 	}
+	inner := grpcWebServer
+	grpcWebServer = http.HandlerFunc(func(respWriter http.ResponseWriter, req *http.Request) {
+		if req.ProtoMajor == 1 {
+			// grpc-go sends response headers as soon as a stream handler starts. Over HTTP/1.1,
+			// the net/http server would then stop reading the request body (it discards a
+			// bounded amount and closes it), so a stream whose request messages are still in
+			// flight fails with "invalid Read on closed Body". Let it keep reading.
+			_ = http.NewResponseController(respWriter).EnableFullDuplex()
+		}
+		inner.ServeHTTP(respWriter, req)
+	})
 
 	httpServer := http.Server{
 		Handler:           h2c.NewHandler(grpcWebServer, &http2.Server{}),
